@@ -89,9 +89,11 @@ class PolynomialKernel(Kernel):
         if last_dim_is_batch:
             x1 = x1.transpose(-1, -2).unsqueeze(-1)
             x2 = x2.transpose(-1, -2).unsqueeze(-1)
+            # the input dimension becomes a batch dimension to the right of the kernel's own batch dimensions
+            offset = offset.unsqueeze(-3)
 
         if diag:
-            return ((x1 * x2).sum(dim=-1) + self.offset).pow(self.power)
+            return ((x1 * x2).sum(dim=-1) + offset.squeeze(-1)).pow(self.power)
 
         if (x1.dim() == 2 and x2.dim() == 2) and offset.dim() == 2:
             return torch.addmm(offset, x1, x2.transpose(-2, -1)).pow(self.power)
